@@ -71,6 +71,12 @@ def main():
             l = " ".join(parts)
         if re.match(r"^(cp|mkdir|cargo|git apply)\b", l):
             cmds.append(l)
+    # "git apply ...   # omit for the run without the change" placed BEFORE the test command: the same
+    # commands are meant for both states -> drop the apply step and let the both-states path below run
+    first_apply = next((i for i, c in enumerate(cmds) if c.startswith("git apply") and not c.startswith("git apply -R")), None)
+    first_cargo = next((i for i, c in enumerate(cmds) if c.startswith("cargo")), None)
+    if first_apply is not None and first_cargo is not None and first_apply < first_cargo:
+        cmds = [c for c in cmds if not c.startswith("git apply")]
     if "--demo-only" in sys.argv:
         os.environ["SEEDCHECK_DEMO_ONLY"] = "1"
     log = []
